@@ -1,5 +1,616 @@
 package main
 
-import "verifharness/util"
+// C51: behaviours of spec/coll/{OrderedMap,PersistentSet,IntervalTree,BiMap}.tla replayed by direct
+// Go calls on common/orderedmap, common/persistent, common/intervalst, common/bimap.
+//
+// A behaviour is {"id":n,"kind":"omap|pset|itree|bimap","variant":"...","steps":[label...]}; a label
+// carries the call, the predicted result `res` and (`st`) the predicted observable contents after
+// the call.  After every call the result and the full contents / iteration order are compared.
 
-func mainC51(in, out string) { util.Die("c51 not built yet") }
+import (
+	"encoding/json"
+	"fmt"
+	"sort"
+	"strings"
+	"sync/atomic"
+
+	"github.com/onflow/cadence/common/bimap"
+	"github.com/onflow/cadence/common/intervalst"
+	"github.com/onflow/cadence/common/orderedmap"
+	"github.com/onflow/cadence/common/persistent"
+
+	"verifharness/util"
+)
+
+type kBeh struct {
+	ID      int               `json:"id"`
+	Kind    string            `json:"kind"`
+	Variant string            `json:"variant"`
+	Steps   []json.RawMessage `json:"steps"`
+}
+
+type kFail struct {
+	step int
+	op   string
+	sig  map[string]any
+	msg  string
+	harn bool
+}
+
+func fail(step int, op string, sig map[string]any, format string, a ...any) *kFail {
+	if sig == nil {
+		sig = map[string]any{}
+	}
+	sig["op"] = op
+	return &kFail{step: step, op: op, sig: sig, msg: fmt.Sprintf(format, a...)}
+}
+
+func optStr(xs []int) string {
+	if len(xs) == 0 {
+		return "absent"
+	}
+	return fmt.Sprint(xs[0])
+}
+
+func optOf(v int, ok bool) string {
+	if !ok {
+		return "absent"
+	}
+	return fmt.Sprint(v)
+}
+
+// ------------------------------------------------------------------ ordered map
+
+type omStep struct {
+	Op  string          `json:"op"`
+	K   int             `json:"k"`
+	V   int             `json:"v"`
+	P   string          `json:"p"`
+	O   [][2]int        `json:"o"`
+	Res json.RawMessage `json:"res"`
+	St  [][2]int        `json:"st"`
+}
+
+type OM = orderedmap.OrderedMap[int, int]
+
+func omPred(p string) func(int) bool {
+	switch p {
+	case "even":
+		return func(k int) bool { return k%2 == 0 }
+	case "lt3":
+		return func(k int) bool { return k < 3 }
+	}
+	return func(k int) bool { return k > 100 }
+}
+
+func omOther(o [][2]int, variant string) *OM {
+	var m *OM
+	if variant == "new" {
+		m = orderedmap.New[OM](4)
+	} else {
+		m = &OM{}
+	}
+	for _, p := range o {
+		m.Set(p[0], p[1])
+	}
+	return m
+}
+
+func omContents(m *OM) string {
+	var sb strings.Builder
+	m.Foreach(func(k, v int) { fmt.Fprintf(&sb, "%d=%d,", k, v) })
+	return sb.String()
+}
+
+func pairsStr(ps [][2]int) string {
+	var sb strings.Builder
+	for _, p := range ps {
+		fmt.Fprintf(&sb, "%d=%d,", p[0], p[1])
+	}
+	return sb.String()
+}
+
+func replayOM(b *kBeh) *kFail {
+	var m *OM
+	if b.Variant == "new" {
+		m = orderedmap.New[OM](0)
+	} else {
+		m = &OM{} // the zero value is used all over the code base
+	}
+	written := b.Variant == "new" // false: still the zero value, nothing was ever stored in it
+	for si, raw := range b.Steps {
+		var s omStep
+		if err := json.Unmarshal(raw, &s); err != nil {
+			return &kFail{step: si, harn: true, msg: "bad label: " + err.Error()}
+		}
+		sig := map[string]any{"structure": "orderedmap", "construction": b.Variant, "empty": m.Len() == 0, "neverWritten": !written}
+		var got, want string
+		switch s.Op {
+		case "init":
+			continue
+		case "set", "delete", "get":
+			var r []int
+			json.Unmarshal(s.Res, &r)
+			want = optStr(r)
+			switch s.Op {
+			case "set":
+				got = optOf(m.Set(s.K, s.V))
+			case "delete":
+				got = optOf(m.Delete(s.K))
+			default:
+				got = optOf(m.Get(s.K))
+				if p := m.GetPair(s.K); (p != nil) != (want != "absent") || (p != nil && (p.Key != s.K || fmt.Sprint(p.Value) != want)) {
+					got += " (GetPair disagrees)"
+				}
+			}
+		case "contains", "forAllKeys", "forAnyKey", "disjoint":
+			var r bool
+			json.Unmarshal(s.Res, &r)
+			want = fmt.Sprint(r)
+			switch s.Op {
+			case "contains":
+				got = fmt.Sprint(m.Contains(s.K))
+			case "forAllKeys":
+				got = fmt.Sprint(m.ForAllKeys(omPred(s.P)))
+			case "forAnyKey":
+				got = fmt.Sprint(m.ForAnyKey(omPred(s.P)))
+			default:
+				got = fmt.Sprint(m.KeySetIsDisjointFrom(omOther(s.O, b.Variant)))
+			}
+		case "len":
+			var r int
+			json.Unmarshal(s.Res, &r)
+			want, got = fmt.Sprint(r), fmt.Sprint(m.Len())
+		case "clear":
+			m.Clear()
+		case "oldest", "newest":
+			var r []int
+			json.Unmarshal(s.Res, &r)
+			want = optStr(r)
+			p := m.Oldest()
+			if s.Op == "newest" {
+				p = m.Newest()
+			}
+			if p == nil {
+				got = "absent"
+			} else {
+				got = fmt.Sprint(p.Key)
+			}
+		case "neighbours":
+			var r struct {
+				Prev []int `json:"prev"`
+				Next []int `json:"next"`
+			}
+			json.Unmarshal(s.Res, &r)
+			want = optStr(r.Prev) + "/" + optStr(r.Next)
+			p := m.GetPair(s.K)
+			if p == nil {
+				got = "no pair"
+			} else {
+				pr, nx := "absent", "absent"
+				if q := p.Prev(); q != nil {
+					pr = fmt.Sprint(q.Key)
+				}
+				if q := p.Next(); q != nil {
+					nx = fmt.Sprint(q.Key)
+				}
+				got = pr + "/" + nx
+			}
+		case "foreach":
+			var r [][2]int
+			json.Unmarshal(s.Res, &r)
+			want = pairsStr(r)
+			var sb strings.Builder
+			n := 0
+			m.ForeachWithIndex(func(i, k, v int) {
+				if i != n {
+					sb.WriteString("!")
+				}
+				n++
+				fmt.Fprintf(&sb, "%d=%d,", k, v)
+			})
+			got = sb.String()
+			var sb2 strings.Builder
+			_ = m.ForeachWithError(func(k, v int) error { fmt.Fprintf(&sb2, "%d=%d,", k, v); return nil })
+			if sb2.String() != got {
+				got += " (ForeachWithError: " + sb2.String() + ")"
+			}
+		case "setAll":
+			m.SetAll(omOther(s.O, b.Variant))
+		case "intersection":
+			m = orderedmap.KeySetIntersection(m, omOther(s.O, b.Variant))
+		case "union":
+			m = orderedmap.KeySetUnion(m, omOther(s.O, b.Variant))
+		default:
+			return &kFail{step: si, harn: true, msg: "unknown op " + s.Op}
+		}
+		if got != want {
+			return fail(si, s.Op, sig, "orderedmap (%s) %s(k=%d,v=%d,p=%s,o=%v): model predicts %s, code returned %s", b.Variant, s.Op, s.K, s.V, s.P, s.O, want, got)
+		}
+		switch s.Op {
+		case "set", "intersection", "union":
+			written = true
+		case "setAll":
+			written = written || len(s.O) > 0
+		}
+		// contents: forward iteration, backward iteration, length
+		wantSt := pairsStr(s.St)
+		if g := omContents(m); g != wantSt {
+			return fail(si, s.Op, sig, "orderedmap (%s) after %s(k=%d,v=%d,o=%v): iteration order model=%s code=%s", b.Variant, s.Op, s.K, s.V, s.O, wantSt, g)
+		}
+		var back [][2]int
+		for p := m.Newest(); p != nil; p = p.Prev() {
+			back = append(back, [2]int{p.Key, p.Value})
+			if len(back) > len(s.St)+2 {
+				break
+			}
+		}
+		for i, j := 0, len(back)-1; i < j; i, j = i+1, j-1 {
+			back[i], back[j] = back[j], back[i]
+		}
+		if g := pairsStr(back); g != wantSt {
+			return fail(si, s.Op, sig, "orderedmap (%s) after %s(k=%d): backward iteration model=%s code=%s", b.Variant, s.Op, s.K, wantSt, g)
+		}
+		if m.Len() != len(s.St) {
+			return fail(si, s.Op, sig, "orderedmap (%s) after %s(k=%d): Len model=%d code=%d", b.Variant, s.Op, s.K, len(s.St), m.Len())
+		}
+	}
+	return nil
+}
+
+// ------------------------------------------------------------------ persistent ordered set
+
+type psStep struct {
+	Op  string          `json:"op"`
+	S   int             `json:"s"`
+	A   int             `json:"a"`
+	B   int             `json:"b"`
+	X   int             `json:"x"`
+	Res json.RawMessage `json:"res"`
+	St  [][]int         `json:"st"`
+}
+
+func psShow(s *persistent.OrderedSet[int]) []int {
+	out := []int{}
+	_ = s.ForEach(func(x int) error { out = append(out, x); return nil })
+	return out
+}
+
+func replayPS(b *kBeh) *kFail {
+	var sets []*persistent.OrderedSet[int]
+	for si, raw := range b.Steps {
+		var s psStep
+		if err := json.Unmarshal(raw, &s); err != nil {
+			return &kFail{step: si, harn: true, msg: "bad label: " + err.Error()}
+		}
+		sig := map[string]any{"structure": "persistent.OrderedSet"}
+		var got, want string
+		switch s.Op {
+		case "init":
+			continue
+		case "new":
+			sets = append(sets, persistent.NewOrderedSet[int](nil))
+		case "clone":
+			sets = append(sets, sets[s.S-1].Clone())
+		case "add":
+			sets[s.S-1].Add(s.X)
+		case "contains", "isEmpty":
+			var r bool
+			json.Unmarshal(s.Res, &r)
+			want = fmt.Sprint(r)
+			if s.Op == "contains" {
+				got = fmt.Sprint(sets[s.S-1].Contains(s.X))
+			} else {
+				got = fmt.Sprint(sets[s.S-1].IsEmpty())
+			}
+		case "forEach":
+			var r []int
+			json.Unmarshal(s.Res, &r)
+			want, got = fmt.Sprint(r), fmt.Sprint(psShow(sets[s.S-1]))
+			if len(r) == 0 {
+				want = "[]"
+			}
+		case "addIntersection":
+			sets[s.S-1].AddIntersection(sets[s.A-1], sets[s.B-1])
+		default:
+			return &kFail{step: si, harn: true, msg: "unknown op " + s.Op}
+		}
+		if got != want {
+			return fail(si, s.Op, sig, "persistent set %s(set=%d,x=%d): model predicts %s, code returned %s", s.Op, s.S, s.X, want, got)
+		}
+		if len(s.St) != len(sets) {
+			return &kFail{step: si, harn: true, msg: fmt.Sprintf("model has %d sets, harness %d", len(s.St), len(sets))}
+		}
+		for i, w := range s.St {
+			g := psShow(sets[i])
+			if len(w) == 0 {
+				w = []int{}
+			}
+			if fmt.Sprint(g) != fmt.Sprint(w) {
+				return fail(si, s.Op, sig, "persistent set after %s(set=%d,a=%d,b=%d,x=%d): set %d shows model=%v code=%v", s.Op, s.S, s.A, s.B, s.X, i+1, w, g)
+			}
+			if sets[i].IsEmpty() != (len(w) == 0) {
+				return fail(si, s.Op, sig, "persistent set after %s: IsEmpty of set %d is %v, model shows %v", s.Op, i+1, sets[i].IsEmpty(), w)
+			}
+		}
+	}
+	return nil
+}
+
+// ------------------------------------------------------------------ bimap
+
+type bmStep struct {
+	Op  string          `json:"op"`
+	K   int             `json:"k"`
+	V   int             `json:"v"`
+	Res json.RawMessage `json:"res"`
+	St  [][2]int        `json:"st"`
+}
+
+func replayBM(b *kBeh) *kFail {
+	m := bimap.NewBiMap[int, int]()
+	for si, raw := range b.Steps {
+		var s bmStep
+		if err := json.Unmarshal(raw, &s); err != nil {
+			return &kFail{step: si, harn: true, msg: "bad label: " + err.Error()}
+		}
+		sig := map[string]any{"structure": "bimap"}
+		var got, want string
+		switch s.Op {
+		case "init":
+			continue
+		case "insert":
+			m.Insert(s.K, s.V)
+		case "delete":
+			m.Delete(s.K)
+		case "deleteInverse":
+			m.DeleteInverse(s.V)
+		case "exists", "existsInverse":
+			var r bool
+			json.Unmarshal(s.Res, &r)
+			want = fmt.Sprint(r)
+			if s.Op == "exists" {
+				got = fmt.Sprint(m.Exists(s.K))
+			} else {
+				got = fmt.Sprint(m.ExistsInverse(s.V))
+			}
+		case "get", "getInverse":
+			var r []int
+			json.Unmarshal(s.Res, &r)
+			want = optStr(r)
+			if s.Op == "get" {
+				got = optOf(m.Get(s.K))
+			} else {
+				got = optOf(m.GetInverse(s.V))
+			}
+		case "size":
+			var r int
+			json.Unmarshal(s.Res, &r)
+			want, got = fmt.Sprint(r), fmt.Sprint(m.Size())
+		default:
+			return &kFail{step: si, harn: true, msg: "unknown op " + s.Op}
+		}
+		if got != want {
+			return fail(si, s.Op, sig, "bimap %s(k=%d,v=%d): model predicts %s, code returned %s", s.Op, s.K, s.V, want, got)
+		}
+		// contents: probe every key and value of a universe that contains the model's
+		if m.Size() != len(s.St) {
+			return fail(si, s.Op, sig, "bimap after %s(k=%d,v=%d): Size model=%d code=%d", s.Op, s.K, s.V, len(s.St), m.Size())
+		}
+		fw := map[int]int{}
+		bw := map[int]int{}
+		for _, p := range s.St {
+			fw[p[0]] = p[1]
+			bw[p[1]] = p[0]
+		}
+		for x := 0; x <= 17; x++ {
+			v, ok := m.Get(x)
+			wv, wok := fw[x]
+			if ok != wok || (ok && v != wv) {
+				return fail(si, s.Op, sig, "bimap after %s(k=%d,v=%d): Get(%d) model=%s code=%s", s.Op, s.K, s.V, x, optOf(wv, wok), optOf(v, ok))
+			}
+			k, ok := m.GetInverse(x)
+			wk, wok := bw[x]
+			if ok != wok || (ok && k != wk) {
+				return fail(si, s.Op, sig, "bimap after %s(k=%d,v=%d): GetInverse(%d) model=%s code=%s", s.Op, s.K, s.V, x, optOf(wk, wok), optOf(k, ok))
+			}
+		}
+	}
+	return nil
+}
+
+// ------------------------------------------------------------------ interval tree
+
+type pos int
+
+func (p pos) String() string { return fmt.Sprint(int(p)) }
+func (p pos) Compare(o intervalst.Position) int {
+	if _, ok := o.(intervalst.MinPosition); ok {
+		return 1
+	}
+	q := o.(pos)
+	switch {
+	case p < q:
+		return -1
+	case p > q:
+		return 1
+	}
+	return 0
+}
+
+type itEntryCount struct {
+	E [3]int
+	N int
+}
+
+func (e *itEntryCount) UnmarshalJSON(b []byte) error {
+	var raw []json.RawMessage
+	if err := json.Unmarshal(b, &raw); err != nil || len(raw) != 2 {
+		return fmt.Errorf("bad bag entry %s", b)
+	}
+	if err := json.Unmarshal(raw[0], &e.E); err != nil {
+		return err
+	}
+	return json.Unmarshal(raw[1], &e.N)
+}
+
+type itStep struct {
+	Op  string          `json:"op"`
+	Lo  int             `json:"lo"`
+	Hi  int             `json:"hi"`
+	V   int             `json:"v"`
+	P   int             `json:"p"`
+	Res json.RawMessage `json:"res"`
+	St  *[]itEntryCount `json:"st"`
+}
+
+func bagStrings(bag []itEntryCount) []string {
+	var out []string
+	for _, e := range bag {
+		for i := 0; i < e.N; i++ {
+			out = append(out, fmt.Sprintf("[%d,%d]=%d", e.E[0], e.E[1], e.E[2]))
+		}
+	}
+	sort.Strings(out)
+	return out
+}
+
+func replayIT(b *kBeh) *kFail {
+	t := &intervalst.IntervalST[int]{}
+	for si, raw := range b.Steps {
+		var s itStep
+		if err := json.Unmarshal(raw, &s); err != nil {
+			return &kFail{step: si, harn: true, msg: "bad label: " + err.Error()}
+		}
+		sig := map[string]any{"structure": "intervalst"}
+		switch s.Op {
+		case "init":
+			continue
+		case "put":
+			t.Put(intervalst.NewInterval(pos(s.Lo), pos(s.Hi)), s.V)
+		case "get":
+			var r struct {
+				Present bool  `json:"present"`
+				Allowed []int `json:"allowed"`
+			}
+			json.Unmarshal(s.Res, &r)
+			v, ok := t.Get(intervalst.NewInterval(pos(s.Lo), pos(s.Hi)))
+			in := false
+			for _, a := range r.Allowed {
+				in = in || a == v
+			}
+			if ok != r.Present || (ok && !in) || t.Contains(intervalst.NewInterval(pos(s.Lo), pos(s.Hi))) != r.Present {
+				return fail(si, s.Op, sig, "interval tree Get([%d,%d]): model predicts present=%v with a value in %v, code returned (%d,%v)", s.Lo, s.Hi, r.Present, r.Allowed, v, ok)
+			}
+		case "search", "searchInterval":
+			var r struct {
+				Present bool     `json:"present"`
+				Allowed [][3]int `json:"allowed"`
+			}
+			json.Unmarshal(s.Res, &r)
+			var iv *intervalst.Interval
+			var v int
+			var ok bool
+			if s.Op == "search" {
+				iv, v, ok = t.Search(pos(s.P))
+			} else {
+				iv, v, ok = t.SearchInterval(intervalst.NewInterval(pos(s.Lo), pos(s.Hi)))
+			}
+			in := false
+			if ok && iv != nil {
+				for _, a := range r.Allowed {
+					in = in || (a[0] == int(iv.Min.(pos)) && a[1] == int(iv.Max.(pos)) && a[2] == v)
+				}
+			}
+			if ok != r.Present || (ok && !in) {
+				return fail(si, s.Op, sig, "interval tree %s(p=%d,[%d,%d]): model predicts present=%v with an entry in %v, code returned (%v,%d,%v)", s.Op, s.P, s.Lo, s.Hi, r.Present, r.Allowed, iv, v, ok)
+			}
+		case "searchAll":
+			var r []itEntryCount
+			json.Unmarshal(s.Res, &r)
+			var got []string
+			for _, e := range t.SearchAll(pos(s.P)) {
+				got = append(got, fmt.Sprintf("[%d,%d]=%d", int(e.Interval.Min.(pos)), int(e.Interval.Max.(pos)), e.Value))
+			}
+			sort.Strings(got)
+			if fmt.Sprint(got) != fmt.Sprint(bagStrings(r)) {
+				return fail(si, s.Op, sig, "interval tree SearchAll(%d): model predicts %v, code returned %v", s.P, bagStrings(r), got)
+			}
+		case "values":
+		default:
+			return &kFail{step: si, harn: true, msg: "unknown op " + s.Op}
+		}
+		if s.St != nil {
+			// contents: the bag of values
+			var want []int
+			for _, e := range *s.St {
+				for i := 0; i < e.N; i++ {
+					want = append(want, e.E[2])
+				}
+			}
+			got := append([]int(nil), t.Values()...)
+			sort.Ints(want)
+			sort.Ints(got)
+			if fmt.Sprint(got) != fmt.Sprint(want) {
+				return fail(si, s.Op, sig, "interval tree after %s([%d,%d]=%d): Values() model=%v code=%v", s.Op, s.Lo, s.Hi, s.V, want, got)
+			}
+		}
+	}
+	return nil
+}
+
+func mainC51(in, outPath string) {
+	var behs []*kBeh
+	err := util.ReadLines(in, func(line []byte) error {
+		var b kBeh
+		if err := json.Unmarshal(line, &b); err != nil {
+			return err
+		}
+		behs = append(behs, &b)
+		return nil
+	})
+	if err != nil {
+		util.Die("reading behaviours: %v", err)
+	}
+	out := util.NewOut(outPath)
+	defer out.Close()
+	var nfail, nsteps int64
+	util.Parallel(len(behs), workers(), func(i int) {
+		b := behs[i]
+		var f *kFail
+		func() {
+			defer func() {
+				if r := recover(); r != nil {
+					f = fail(len(b.Steps), "panic", map[string]any{"structure": b.Kind}, "%s: the code panicked: %v", b.Kind, r)
+				}
+			}()
+			switch b.Kind {
+			case "omap":
+				f = replayOM(b)
+			case "pset":
+				f = replayPS(b)
+			case "bimap":
+				f = replayBM(b)
+			case "itree":
+				f = replayIT(b)
+			default:
+				f = &kFail{harn: true, msg: "unknown kind " + b.Kind}
+			}
+		}()
+		atomic.AddInt64(&nsteps, int64(len(b.Steps)))
+		if f != nil {
+			atomic.AddInt64(&nfail, 1)
+			n := f.step + 1
+			if n > len(b.Steps) {
+				n = len(b.Steps)
+			}
+			if f.sig == nil {
+				f.sig = map[string]any{}
+			}
+			f.sig["kind"] = "result"
+			out.Write(&Fail{ID: b.ID, Kind: "result", Harness: f.harn, Step: f.step, Op: f.op, Sig: f.sig, Msg: f.msg,
+				Beh: map[string]any{"kind": b.Kind, "variant": b.Variant, "steps": b.Steps[:n]}})
+		}
+	})
+	out.Write(map[string]any{"summary": true, "behaviours": len(behs), "replays": len(behs), "steps": nsteps, "failures": nfail})
+}
